@@ -206,25 +206,26 @@ func (t *Standard) Open(a *Args) error {
 
 // Close closes the Standard transport.
 func (t *Standard) Close() error {
+	var err error
+
 	if t.session != nil {
-		err := t.session.Close()
-		if err != nil {
-			return err
-		}
+		// when the peer has ended the session already this reports an error (EOF) -- the connection
+		// below is closed all the same, it must not be left behind
+		err = t.session.Close()
 
 		t.session = nil
 	}
 
 	if t.client != nil {
-		err := t.client.Close()
-		if err != nil {
-			return err
+		clientErr := t.client.Close()
+		if err == nil {
+			err = clientErr
 		}
 
 		t.client = nil
 	}
 
-	return nil
+	return err
 }
 
 // IsAlive returns true if the Standard transport session attribute is not nil.
